@@ -1559,6 +1559,13 @@ class SQLModel:
         using_left, using_right = join_node.columns_used_from_sources(
             using=using.union(join_node.on_a).union(join_node.on_b)
         )
+        # a side none of whose columns is needed still carries one column: a table asked for nothing is
+        # written as the bare stored table, whose other columns (e.g. dropped ones) can collide with
+        # the unqualified column names of the other side ("ambiguous column name")
+        if len(using_left) < 1:
+            using_left = OrderedSet(join_node.sources[0].column_names[:1])
+        if len(using_right) < 1:
+            using_right = OrderedSet(join_node.sources[1].column_names[:1])
         sql_left = join_node.sources[0].to_near_sql_implementation_(
             db_model=self, using=using_left, temp_id_source=temp_id_source
         )
